@@ -429,8 +429,10 @@ def run(tier, seed):
                     stats["duplicate_sources"] = stats.get("duplicate_sources", 0) + 1
                     continue
                 seen.append(sig)
-                if n > (8 if tier == "quick" else 10):
-                    skip("too wide for TLC")
+                if n > (7 if tier == "quick" else 10):
+                    # too wide for this tier's TLC budget: the (exact) records are evaluated by the numeric bridge instead
+                    stats["wide_cases_bridged"] = stats.get("wide_cases_bridged", 0) + 1
+                    float_srcs.append((ii, sname, recs, n, lv))
                     continue
                 cases.append(_case(it, n, tw, recs, it["rel"], lv))
                 owners.append((ii, sname, n))
